@@ -80,8 +80,9 @@ func Explore(s System, o Options) *Result {
 		o.Workers = 16
 	}
 	if o.MaxFails == 0 {
-		o.MaxFails = 100
+		o.MaxFails = 2000
 	}
+	sigCount := map[string]int{}
 	res := &Result{Exhaustive: true}
 	seen := map[string]string{} // key -> obs
 	init := s.Run(nil)
@@ -152,8 +153,17 @@ func Explore(s System, o Options) *Result {
 				continue
 			}
 			res.Transitions++
-			if len(it.out.Fails) > 0 && len(res.Violations) < o.MaxFails {
-				res.Violations = append(res.Violations, Violation{it.hist, it.out.Fails})
+			if len(it.out.Fails) > 0 {
+				keep := false
+				for _, f := range it.out.Fails {
+					if sigCount[f.Sig] < 3 {
+						keep = true
+					}
+					sigCount[f.Sig]++
+				}
+				if keep && len(res.Violations) < o.MaxFails {
+					res.Violations = append(res.Violations, Violation{it.hist, it.out.Fails})
+				}
 			}
 			obs, ok := seen[it.out.Key]
 			if !ok {
